@@ -142,6 +142,12 @@ class Check:
                 # is_true is ALSO tied by translation (source_tie("cond")); decided there
                 self.truth_table_failed = msg
                 continue
+            if gen in ("c04_gen", "c05_gen"):
+                # the flow-control keyword tables: ALSO tied function by function (flowif / flowwhile / flowfor / flowfn translate
+                # create_*_meta_info_for_line and FunctionCommand::run, which build the lists handed to find_commands) and
+                # compared with the live registry on every run; decided by Check.flow_tables_standin after those ties ran
+                self.flow_table_failed = getattr(self, "flow_table_failed", []) + [(gen, msg)]
+                continue
             if gen == "c20_gen":
                 # run_cli / main / linter are ALSO tied by translation (source_tie("cli")); decided there
                 self.table_failed["cli"] = (gen, msg, ["DSP.C20.C20_tables", "DSP.C20.C20_exit_source"])
@@ -2282,3 +2288,40 @@ Check.SRC_TIES.update({
               ["Src_regfn_register", "Src_regfn_off_domain"],
               "duckscript_sdk/src/sdk/std/flowcontrol/function/mod.rs::FunctionCommand::run (registry view: what `fn` registers)"),
 })
+
+
+# --- appended (coordinator, session 5): stand-in for the regex extractor of the flow-control keyword TABLES (c04_gen / c05_gen).
+# When the extractor gives up (a harmless respelling of name() / aliases() / create() / load()), the previous tables stay in
+# coq/generated/ and this decides whether they are still tied to the tree: every function of the four flow-control translation
+# ties must be understood and proved on this run (they contain the very statements that build the lists), and the caller's
+# registry obligation compares every name of the tables with the loaded registry.  Otherwise the broken obligation is reported.
+def _flow_tables_standin(self):
+    pending = getattr(self, "flow_table_failed", [])
+    if not pending:
+        return True
+    self.flow_table_failed = []
+    info = self.coverage.setdefault("source_translation", {})
+    # the functions that BUILD the keyword lists handed to find_commands, per tie
+    need = {"flowif": "create_if_meta_info_for_line", "flowwhile": "create_while_meta_info_for_line",
+            "flowfor": "get_or_create_forin_meta_info_for_line", "flowfn": "FunctionCommand::run"}
+
+    def all_active(k):
+        base = info.get(k, {})
+        fns = info.get(k + "_fns", {}).get("functions", {})
+        hit = [v for n, v in fns.items() if n.endswith(need[k])]
+        return bool(base.get("active", False)) and bool(hit) and all(v.get("active") for v in hit)
+    tie_broken = any(("GenTie" in b) or ("SrcFlow" in b) for b in self.broken)
+    inactive_note = False
+    if all(all_active(k) for k in need) and not tie_broken and not inactive_note:
+        for gen, msg in pending:
+            print("NOTE: property=%s the regex extractor of the %s TABLES does not understand the source any more (%s); the previous "
+                  "tables are kept: the translation ties flowif / flowwhile / flowfor / flowfn hold for every function on this tree and "
+                  "the registry obligation compares every name with the loaded commands" % (self.prop, gen, msg), flush=True)
+            info[gen] = {"active": False, "reason": msg, "replaced_by": "translation ties flowif, flowwhile, flowfor, flowfn + registry obligation"}
+        return True
+    for gen, msg in pending:
+        self.broken.append("regenerated table (%s): %s" % (gen, msg))
+    return False
+
+
+Check.flow_tables_standin = _flow_tables_standin
